@@ -16,7 +16,7 @@ Not decided: TOCTOU races between the type test and the operation; kernel semant
 """
 from .lib.effects import Effects, MUTATING
 from .lib.guards import conditions
-from .lib.paths import LayerPaths, cls_str, strip, _listed_from
+from .lib.paths import sbom_formats_covered, LayerPaths, cls_str, strip, _listed_from
 from .lib.value import vstr, walk
 
 FOLLOWING = {'CHMOD', 'LIST'}            # operate on the link target
@@ -44,14 +44,17 @@ def _nofollow_root(v, path_value):
 def established(fn, bb, path_value, slicer):
     """is 'path_value is a real directory / not a symlink' established on every path reaching bb"""
     for c in conditions(fn, bb, slicer):
-        if c.kind != 'bool' or c.value[0] != 'call':
+        if c.kind != 'bool':
             continue
-        want = NOFOLLOW_TRUE.get(c.value[1])
-        if want is None or c.outcome != want:
-            continue
-        root = _nofollow_root(c.value, path_value)
-        if root:
-            return '%s == %s on %s' % (c.value[1].split('::')[-1], want, root)
+        for value, outcome in c.views():
+            if value[0] != 'call':
+                continue
+            want = NOFOLLOW_TRUE.get(value[1])
+            if want is None or outcome != want:
+                continue
+            root = _nofollow_root(value, path_value)
+            if root:
+                return '%s == %s on %s' % (value[1].split('::')[-1], want, root)
     return None
 
 
@@ -154,12 +157,8 @@ def run(ctx, rep):
     kinds = [(e.kind, LD.classify(e.path), e.forall) for e in must]
     has_dir = any(k in ('REMOVE_DIR', 'REMOVE_TREE', 'REMOVE_FILE') and c == ('DIR',) for k, c, _ in kinds)
     has_toml = any(k == 'REMOVE_FILE' and c == ('TOML',) for k, c, _ in kinds)
-    sb = [(c, fa) for k, c, fa in kinds if k == 'REMOVE_FILE' and c is not None and c[0] == 'SBOM' and fa is not None]
     all_variants = sorted(v['name'] for v in prog.adt('libcnb_data::sbom::SbomFormat')['variants'])
-    sb_ok = False
-    if sb:
-        listed = sorted(x[2] for x in walk(sb[0][1]) if x[0] == 'agg' and (x[1] or '').endswith('SbomFormat'))
-        sb_ok = listed == all_variants
+    sb_ok = sorted(sbom_formats_covered([e for e in must if e.kind == 'REMOVE_FILE'], LD.classify)) == all_variants
     where = '%s:%d' % (dl.file, dl.line)
     rep.check(has_dir, 'R3', 'delete_layer/DIR', where, 'layer directory removed on every success path', 'layer directory is not always removed')
     rep.check(has_toml, 'R3', 'delete_layer/TOML', where, 'layer TOML removed on every success path', 'layer TOML is not always removed')
